@@ -46,7 +46,13 @@ struct Case {
 }
 
 fn gen_case(r: &mut Rng, port: u16) -> (Case, String) {
-    let pq = match r.below(21) {
+    let pq = match r.below(26) {
+        // fragments that themselves contain '?', '&' or '=' (they are not part of the query)
+        21 => "/announce#page?tab=1".to_string(),
+        22 => "/announce?k=v#a?b&c=d".to_string(),
+        23 => "/a/announce#x&y=z".to_string(),
+        24 => "/announce#".to_string(),
+        25 => "/announce?#?".to_string(),
         18 => "/announce#frag".to_string(),
         19 => "/announce?k=v#top".to_string(),
         20 => "/a/announce?#".to_string(),
